@@ -399,6 +399,16 @@ def len_constraint(ev: Ev, target_src: str) -> Optional[Tuple[int, Optional[int]
 
 
 def _len_interval(test: ast.AST, target: str, truth: bool) -> Optional[Tuple[int, Optional[int]]]:
+    # truthiness of the sequence itself (E-NORM N18): `if x:` bounds len(x) >= 1, `if not x:` fixes it at 0
+    while isinstance(test, ast.UnaryOp) and isinstance(test.op, ast.Not):
+        truth = not truth
+        test = test.operand
+    if ast.unparse(test) == target and isinstance(test, (ast.Name, ast.Attribute, ast.Subscript)):
+        return (1, None) if truth else (0, 0)
+    return _len_interval_cmp(test, target, truth)
+
+
+def _len_interval_cmp(test: ast.AST, target: str, truth: bool) -> Optional[Tuple[int, Optional[int]]]:
     while isinstance(test, ast.UnaryOp) and isinstance(test.op, ast.Not):
         truth = not truth
         test = test.operand
